@@ -175,7 +175,7 @@ def gen(
             ),
             "rt",
         ) as f:
-            imports: str = "".join(
+            imports: str = "\n".join(
                 map(to_code, get_at_root(ast.parse(f.read()), (Import, ImportFrom)))
             )
 
